@@ -208,7 +208,7 @@ func main() {
 		"twin_pairs_nontrivial", "twin_revisit_pairs_nontrivial", "twin_multitx_pairs_nontrivial", "twin_controls_effective", "static_subtrees_nontrivial", "twin_frames_failed_observed",
 		"scratch_start_observations", "scratch_starts_after_dirty_tx", "scratch_end_transient_nonzero", "scratch_end_accesslist_addr",
 		"scratch_end_accesslist_slot", "scratch_end_logs", "scratch_tload_results_checked", "scratch_receipts_checked", "scratch_receipt_logs_seen",
-		"scratch_tx_executor", "scratch_tx_direct", "legacy013_receipts_checked", "legacy013_receipt_logs_seen")
+		"scratch_tx_executor", "scratch_tx_direct", "scratch_tx_operator_node_executor", "scratch_operator_node_ok_after_dirty_tx", "legacy013_receipts_checked", "legacy013_receipt_logs_seen")
 	for _, k := range []string{kCALL, kCALLCODE, kDELEGATE, kSTATIC} {
 		for _, m := range []string{"accepted", "badinput", "lowgas"} {
 			must = append(must, "pre_"+k+"_"+m)
